@@ -29,6 +29,12 @@ def counters_script(rng, nworlds):
         cache = bool(i % 2)
         s.file(w.lines, rng, tag="rec", opts={"record": True, "cache": cache})
         qs = semgen.world_queries(w, rng, per_name=3)
+        # types whose code is beyond 255 but that have a mnemonic (CAA, URI), and one that has none
+        for q, c in list(qs[:12]):
+            for t in (257, 256, 32769, 12345):
+                q2, c2 = dict(q), dict(c)
+                q2["type"], c2["type"] = t, t
+                qs.append((q2, c2))
         for q, c in qs:
             s.q(q, c, tag="rec")
             r = rng.random()
